@@ -27,6 +27,8 @@ pub struct X {
     items: Vec<u32>,
     /// the stream is closed at some point (by prefill or by the feeder)
     closes: bool,
+    /// the handler of this item calls ctx.stop()
+    item_stop: Option<u32>,
 }
 
 fn oracle(s: &ProgScene<X>, t: &Trace) -> Vec<Violation> {
@@ -34,7 +36,8 @@ fn oracle(s: &ProgScene<X>, t: &Trace) -> Vec<Violation> {
     let mut out = vec![];
     let x = &s.extra;
     let term = an.task_end(0);
-    let stop_requested = s.clients.iter().flat_map(|c| c.ops.iter()).any(|op| matches!(op, Op::Stop(_) | Op::Cmd(_, _, Action::Stop)));
+    let stop_requested = s.clients.iter().flat_map(|c| c.ops.iter()).any(|op| matches!(op, Op::Stop(_) | Op::Cmd(_, _, Action::Stop)))
+        || x.item_stop.is_some_and(|i| an.enters.iter().any(|e| e.cb == Cb::Item(i)));
     // items: handled in stream order, each once, a prefix of what the stream offers
     let handled: Vec<u32> = an.enters.iter().filter_map(|e| if let Cb::Item(i) = e.cb { Some(i) } else { None }).collect();
     if !handled.is_empty() {
@@ -194,10 +197,18 @@ fn make_case_t(via: StreamVia, prefill: &[u32], prefill_close: bool, feeder: &[O
         role.work.push((msg_id(0, 0), Work { sleep: 5, ..Work::default() }));
         role.work.push((71, Work { sleep: 5, ..Work::default() }));
     }
+    let item_stop = ITEM_STOP.with(|i| i.get()).filter(|i| items.contains(i));
+    if let Some(i) = item_stop {
+        role.msg_actions.push((i, Action::Stop));
+    }
     let desc = format!(
         "stream timeout={timeout:?} via={via:?} prefill={prefill:?} close={prefill_close} feeder={feeder:?} awaiter={awaiter} yields={yields} progs={}",
         progs.iter().map(|p| p.iter().map(|l| format!("{l:?}")).collect::<Vec<_>>().join(",")).collect::<Vec<_>>().join(" | ")
     );
+    let desc = desc.replacen("stream", &match item_stop {
+        Some(i) => format!("stream [the handler of item {i} calls ctx.stop()]"),
+        None => "stream".to_string(),
+    }, 1);
     Case {
         desc,
         exec: ExecCfg::default(),
@@ -207,7 +218,7 @@ fn make_case_t(via: StreamVia, prefill: &[u32], prefill_close: bool, feeder: &[O
             attach: Attach::Stream { via, prefill: prefill.to_vec(), close: prefill_close },
             roles: vec![role],
             clients,
-            extra: X { items, closes },
+            extra: X { items, closes, item_stop },
             oracle,
         }),
     }
@@ -219,6 +230,11 @@ fn seqs(alpha: &[A], n: usize) -> Vec<Vec<A>> {
         out = out.into_iter().flat_map(|p| alpha.iter().map(move |l| { let mut q = p.clone(); q.push(*l); q })).collect();
     }
     out
+}
+
+thread_local! {
+    /// the handler of this item (if the case's stream yields it) stops the actor from inside
+    static ITEM_STOP: std::cell::Cell<Option<u32>> = const { std::cell::Cell::new(None) };
 }
 
 // ------------------------------------------------------------------ the mailbox gets its turn
@@ -326,6 +342,15 @@ pub fn fair_cases(pid: &'static str) -> Vec<Case> {
 }
 
 fn cases(tier: Tier) -> Vec<Case> {
+    let mut v = all_cases(tier);
+    // an item handler that stops the actor from inside (item 72 where the stream yields it)
+    ITEM_STOP.with(|i| i.set(Some(72)));
+    v.extend(all_cases(tier).into_iter().filter(|c| c.desc.contains("calls ctx.stop()")));
+    ITEM_STOP.with(|i| i.set(None));
+    v
+}
+
+fn all_cases(tier: Tier) -> Vec<Case> {
     let mut v = fair_cases("C13");
     let vias = [StreamVia::SpawnOnStream, StreamVia::BuildOnStream, StreamVia::BoundedOnStream(1)];
     let alpha = [A::Send, A::Call, A::Stop, A::CtxStop, A::Drop, A::CallGiveUp];
